@@ -1688,10 +1688,12 @@ def gen_locate_stmt(node, code, codegen):
         codegen.gen_code_for_node(node.cursor, code)
         gen_code_for_conv(expr.Type.INTEGER, node.cursor, code, codegen)
 
-    code.add(
-        ('push%', -1),
-        ('push%', -1),
-    )
+    for arg in (node.start, node.stop):
+        if arg is None:
+            code.add(('push%', -1))
+        else:
+            codegen.gen_code_for_node(arg, code)
+            gen_code_for_conv(expr.Type.INTEGER, arg, code, codegen)
 
     code.add(('io', 'terminal', 'locate'))
 
